@@ -210,8 +210,10 @@ def parso_stream(code, version, inner=True, upto=None):
 
 
 def check(code, version, env):
-    if '\x00' in code or '\x0c' in code or '\ufeff' in code or '\r' in code.replace('\r\n', ''):
-        return []      # form feeds reset CPython's column count; BOM and lone CR are handled by the decoder
+    if '\x00' in code or '\ufeff' in code or '\r' in code.replace('\r\n', ''):
+        return []      # BOM and lone CR are handled by the decoder
+    # (form feeds used to be excluded as well -- "they reset CPython's column count" -- which hid that the reset changes the
+    # INDENT / DEDENT tokens, not the reported columns: now compared, the divergence is a listed known finding)
     r = raw_reference(code, version)
     if r is None:
         STATS['no_reference_interpreter'] = STATS.get('no_reference_interpreter', 0) + 1
@@ -284,6 +286,9 @@ def check(code, version, env):
         import re as _re
         if ('INDENT' in sig or 'DEDENT' in sig) and _re.search(r'(?:^|\n)[ \t]*\\\r?\n', code):
             FLAGS.add('indent-from-continuation-line')
+        if ('INDENT' in sig or 'DEDENT' in sig) and _re.search(r'(?:^|\n)[ \t]*\x0c[ \t\x0c]*[^ \t\x0c\r\n#]', code):
+            # a form feed in the leading whitespace of a line that carries a token: CPython restarts the indentation column there
+            FLAGS.add('formfeed-resets-indentation-column')
         if vt < (3, 9) and e and e[0] == 'NEWLINE' and _re.search(r'\\\r?\n[ \t\x0b]*(?:#[^\r\n]*)?\r?\n', code):
             FLAGS.add('newline-token-for-blank-line-after-continuation')
         if vt >= (3, 13) and e and g and e[0] == 'FTXT' and g[0] == 'OP' and g[1] in ('{', '}') \
